@@ -20,12 +20,13 @@ import (
 func init() { register("hist", runHist) }
 
 type histMode struct {
-	flavors []string
-	gen     hist.GenConfig
-	oracle  func(h *hist.History, o *hist.Outcome) []hist.Problem
-	roracle func(r *hist.Run) []hist.Problem // oracle that needs the recorded traffic
-	proto   bool                            // emit protocol-model cases
-	twin    string                          // "", "nogc"
+	flavors   []string
+	gen       hist.GenConfig
+	oracle    func(h *hist.History, o *hist.Outcome) []hist.Problem
+	roracle   func(r *hist.Run) []hist.Problem // oracle that needs the recorded traffic
+	smallSnap bool                             // half of the histories run on projects with tiny snapshot interval/threshold
+	proto     bool                             // emit protocol-model cases
+	twin      string                           // "", "nogc"
 }
 
 func baseOracle(h *hist.History, o *hist.Outcome) []hist.Problem {
@@ -61,8 +62,8 @@ func modeFor(prop string) (*histMode, error) {
 			}}, nil
 	case "C11":
 		return &histMode{flavors: []string{"counter", "object", "array"}, proto: true,
-			gen: hist.GenConfig{MinClients: 2, MaxClients: 4, MinSteps: 8, MaxSteps: 30, Detach: true, Deactivate: true, Late: true},
-			oracle: func(h *hist.History, o *hist.Outcome) []hist.Problem { return nil },
+			gen:     hist.GenConfig{MinClients: 2, MaxClients: 4, MinSteps: 8, MaxSteps: 30, Detach: true, Deactivate: true, Late: true},
+			oracle:  func(h *hist.History, o *hist.Outcome) []hist.Problem { return nil },
 			roracle: hist.CheckMinVVExact}, nil
 	case "C04":
 		return &histMode{flavors: []string{"counter", "object", "array", "mixed"}, proto: true,
@@ -76,10 +77,12 @@ func modeFor(prop string) (*histMode, error) {
 				}
 				return ps
 			},
-			roracle: func(r *hist.Run) []hist.Problem { return append(hist.CheckDelivery(r), hist.CheckCumulativeDelivery(r)...) }}, nil
+			roracle: func(r *hist.Run) []hist.Problem {
+				return append(hist.CheckDelivery(r), hist.CheckCumulativeDelivery(r)...)
+			}}, nil
 	case "C05":
 		return &histMode{flavors: []string{"counter", "array", "text", "mixed"}, proto: true,
-			gen: hist.GenConfig{MinClients: 2, MaxClients: 4, MinSteps: 6, MaxSteps: 30, Retry: true, Inflight: true},
+			gen: hist.GenConfig{MinClients: 2, MaxClients: 4, MinSteps: 6, MaxSteps: 30, Retry: true, Inflight: true, LostRetry: true},
 			oracle: func(h *hist.History, o *hist.Outcome) []hist.Problem {
 				ps := baseOracle(h, o)
 				seen := map[string]bool{}
@@ -92,10 +95,12 @@ func modeFor(prop string) (*histMode, error) {
 				}
 				return append(ps, hist.CheckConvergence(o)...)
 			},
-			roracle: func(r *hist.Run) []hist.Problem { return append(hist.CheckDelivery(r), hist.CheckCumulativeDelivery(r)...) }}, nil
+			roracle: func(r *hist.Run) []hist.Problem {
+				return append(hist.CheckDelivery(r), hist.CheckCumulativeDelivery(r)...)
+			}}, nil
 	case "C06":
-		return &histMode{flavors: all,
-			gen: hist.GenConfig{MinClients: 2, MaxClients: 4, MinSteps: 6, MaxSteps: 30, Inflight: true, Detach: true},
+		return &histMode{flavors: append(append([]string{}, all...), "counter", "counter"),
+			gen: hist.GenConfig{MinClients: 2, MaxClients: 4, MinSteps: 6, MaxSteps: 30, Inflight: true, Detach: true, Late: true, OptOut: true},
 			oracle: func(h *hist.History, o *hist.Outcome) []hist.Problem {
 				var ps []hist.Problem
 				for _, p := range o.Problems {
@@ -105,7 +110,7 @@ func modeFor(prop string) (*histMode, error) {
 				}
 				return append(ps, hist.CheckLog(o)...)
 			},
-			roracle: hist.CheckMinVV, proto: true}, nil
+			roracle: func(r *hist.Run) []hist.Problem { return append(hist.CheckMinVV(r), hist.CheckLamportCausal(r)...) }, proto: true, smallSnap: true}, nil
 	case "C08":
 		return &histMode{flavors: all,
 			gen: hist.GenConfig{MinClients: 1, MaxClients: 3, MinSteps: 6, MaxSteps: 30, FailUpd: true, Undo: true},
@@ -232,7 +237,29 @@ func runHist(cfg *config) error {
 			return err
 		}
 		o, ps := runOne(&rp.Violation.Replay)
-		ob, _ := json.MarshalIndent(map[string]any{"problems": ps, "final": o.Final, "steps": o.Steps}, "", " ")
+		var tr []string
+		if lastRun != nil {
+			for i, t := range lastRun.Trace {
+				line := fmt.Sprintf("%d %s %s", i, t.Kind, t.Client.String()[18:])
+				if t.Req != nil {
+					line += fmt.Sprintf(" req cp=(%d,%d) nchanges=%d", t.Req.Checkpoint.ServerSeq, t.Req.Checkpoint.ClientSeq, len(t.Req.Changes))
+					for _, c := range t.Req.Changes {
+						line += fmt.Sprintf(" [cseq %d lam %d]", c.Id.ClientSeq, c.Id.Lamport)
+					}
+				}
+				if t.Resp != nil {
+					line += fmt.Sprintf(" -> cp=(%d,%d) nchanges=%d snap=%d", t.Resp.Checkpoint.ServerSeq, t.Resp.Checkpoint.ClientSeq, len(t.Resp.Changes), len(t.Resp.Snapshot))
+				}
+				if t.Err != nil {
+					line += " ERR " + t.Err.Error()
+				}
+				if t.Lost {
+					line += " LOST"
+				}
+				tr = append(tr, line)
+			}
+		}
+		ob, _ := json.MarshalIndent(map[string]any{"problems": ps, "final": o.Final, "steps": o.Steps, "trace": tr, "log": o.Log}, "", " ")
 		fmt.Println(string(ob))
 		if len(ps) > 0 {
 			os.Exit(1)
@@ -243,7 +270,7 @@ func runHist(cfg *config) error {
 	for i := 0; i < cfg.n; i++ {
 		g := mode.gen
 		g.Flavor = mode.flavors[i%len(mode.flavors)]
-		if mode.twin == "nosnap" {
+		if mode.twin == "nosnap" || (mode.smallSnap && (i/len(mode.flavors))%2 == 1) {
 			iv := []int64{1, 2, 3, 5, 10}
 			g.Interval, g.Threshold = iv[r.Intn(len(iv))], iv[r.Intn(len(iv))]
 		}
@@ -303,6 +330,7 @@ func runHist(cfg *config) error {
 	res.Nontrivial = len(seen)
 	res.Rule = "random multi-client histories (flavors " + strings.Join(mode.flavors, "/") + ") executed on a real in-process server (memory DB, real RPC stack) with manual clients that follow client.Client step by step; non-trivial = at least 2 clients and 2 updates; distinct = distinct step lists; failing histories are shrunk by delta debugging"
 	const shard = 100
+	res.CaseShard = shard
 	for k := 0; k*shard < len(protoCases); k++ {
 		hi := (k + 1) * shard
 		if hi > len(protoCases) {
